@@ -172,7 +172,8 @@ pub fn gen_cfg(g: &mut SplitMix64, allow_short: bool) -> Cfg {
     let state: Vec<bool> = (0..nvars).map(|_| g.coin()).collect();
     let cutoff = g.range(1, 10) as usize;
     let lc = if allow_short && g.chance(1, 8) { g.below(cutoff as u64 + 1) as usize } else { cutoff };
-    let fill = g.range(0, 9);
+    // fill level; 10 = completely full string (n == L from the first slot on)
+    let fill = if g.chance(1, 10) { 10 } else { g.range(0, 9) };
     let mut rolling = state.clone();
     let mut slots: Vec<Option<FastOp>> = vec![];
     for _ in 0..lc {
